@@ -110,6 +110,45 @@ theorem always_an_answer (P : Prims) (cf : Conf) (env : Env) (rs : ReplaySet) (r
   · simp only [] at hr
     exact ⟨.inl (by rw [hr]), fun _ => by rw [hr]⟩
 
+
+/-! ### the check sites the model was written against -/
+
+/-- The `m_msg_set_err` call sites of every stage function of dec.c and enc.c, in source order (code,
+    message literal; "" = NULL), as they were when the hand-written parsers of `Munge/Model/Cred.lean`
+    were written against them.  (Sites with code 5 / internal-failure texts are allocation or primitive
+    failures the model does not exhibit.) -/
+def sitesAsModelled : List (String × List (Int × String)) := [
+  ("dec_validate_msg", [(1, "No credential specified in decode request")]),
+  ("dec_timestamp", [(1, "Failed to query current time")]),
+  ("dec_authenticate", [(1, "Failed to determine client identity")]),
+  ("dec_check_retry", [(6, "Exceeded maximum number of decode attempts")]),
+  ("dec_unarmor", [(2, "No credential specified"), (8, "Failed to match armor prefix"), (8, "Failed to match armor suffix"), (5, ""), (8, "Failed to base64-decode credential")]),
+  ("dec_unpack_outer", [(8, "Truncated credential version"), (9, "Invalid credential version %d"), (8, "Truncated cipher type"), (10, "Invalid cipher type %d"), (1, "Failed to determine IV length for cipher type %d"), (8, "Truncated MAC type"), (11, "Invalid MAC type %d"), (1, "Failed to determine digest length for MAC type %d"), (11, "Invalid MAC type %d with cipher type %d"), (8, "Truncated compression type"), (12, "Invalid compression type %d"), (8, "Truncated security realm length"), (8, "Truncated security realm string"), (5, ""), (8, "Truncated cipher IV"), (8, "Truncated MAC")]),
+  ("dec_decrypt", [(1, "Failed to determine DEK key length for MAC type %d"), (1, "Failed to compute DEK"), (1, "Failed to determine block size for cipher type %d"), (5, ""), (14, ""), (1, "Failed to decrypt credential")]),
+  ("dec_validate_mac", [(14, ""), (1, "Failed to MAC credential")]),
+  ("dec_decompress", [(5, ""), (14, ""), (1, "Failed to decompress credential")]),
+  ("dec_unpack_inner", [(8, "Truncated salt"), (8, "Truncated origin IP addr length"), (8, "Truncated origin IP addr"), (8, "Invalid origin IP addr length"), (8, "Truncated encode time"), (8, "Truncated time-to-live"), (8, "Truncated UID"), (8, "Truncated GID"), (8, "Truncated UID restriction"), (8, "Truncated GID restriction"), (8, "Truncated data length"), (8, "Truncated data")]),
+  ("dec_validate_auth", [(18, "Unauthorized credential for client UID=%u GID=%u")]),
+  ("dec_validate_time", [(16, ""), (15, "")]),
+  ("dec_validate_replay", [(17, ""), (5, ""), (1, "")]),
+  ("enc_validate_msg", [(10, "Invalid cipher type %d"), (11, "Invalid MAC type %d"), (11, "Invalid MAC type %d with cipher type %d"), (12, "Invalid compression type %d")]),
+  ("enc_init", [(1, "Failed to determine IV length for cipher type %d")]),
+  ("enc_authenticate", [(1, "Failed to determine client identity")]),
+  ("enc_check_retry", [(6, "Exceeded maximum number of encode attempts")]),
+  ("enc_timestamp", [(1, "Failed to query current time")]),
+  ("enc_pack_outer", [(5, "")]),
+  ("enc_pack_inner", [(5, "")]),
+  ("enc_compress", [(5, ""), (1, "Failed to compress credential")]),
+  ("enc_mac", [(1, "Failed to determine digest length for MAC type %d"), (1, "Failed to MAC credential")]),
+  ("enc_encrypt", [(1, "Failed to determine DEK key length for MAC type %d"), (1, "Failed to compute DEK"), (1, "Failed to determine block size for cipher type %d"), (5, ""), (1, "Failed to encrypt credential")]),
+  ("enc_armor", [(5, ""), (1, "Failed to base64-encode credential")]),
+  ("enc_fini", [])]
+
+/-- The check sites of the C source are still exactly those: a bounds check or validation removed from,
+    added to, reordered in or re-worded in dec.c / enc.c changes the generated list and breaks this. -/
+theorem check_sites_as_modelled : errorSites = sitesAsModelled := by
+  decide
+
 /-! ### non-vacuity: the parsers do reach their deepest branches -/
 example : isOob (unpackInner {} ((List.replicate 8 0) ++ [4, 127, 0, 0, 1] ++ be32 5 ++ be32 300 ++ be32 1 ++ be32 2 ++
     be32 4294967295 ++ be32 4294967295 ++ be32 2 ++ [104, 105])) = false := by decide
